@@ -101,12 +101,15 @@ def qualname(func) -> str:
 def base_name(node: ast.AST):
     """Root Name of a target like a.b[c].d -> ('a', text)."""
     cur = node
-    while isinstance(cur, (ast.Attribute, ast.Subscript, ast.Starred)):
-        cur = cur.value
+    while True:
+        if isinstance(cur, (ast.Attribute, ast.Subscript, ast.Starred)):
+            cur = cur.value
+        elif isinstance(cur, ast.Call) and call_name(cur) in VIEW_FUNCS and cur.args:
+            cur = cur.args[0]  # a view / conversion that may share its argument's buffer
+        else:
+            break
     if isinstance(cur, ast.Name):
         return cur.id
-    if isinstance(cur, ast.Call):
-        return None
     return None
 
 
@@ -564,7 +567,10 @@ def rule_no_inplace_mutation(rep: Report, repo: Repo, modules=None):
     rep.count("E4.sinks", n_sinks)
     # call sites of parameter-mutating functions must pass FRESH
     n_calls = 0
-    for (mod, fname), plist in sorted(summaries.items()):
+    propagated, extra_summaries = set(), {}
+
+    def check_sites(mod, fname, plist):
+        nonlocal n_calls
         for caller, call, env in an.calls:
             cn = call_name(call) or ""
             if not (cn == fname or (cn.endswith("." + fname) and cn.rsplit(".", 1)[0] in MODULE_ALIASES)):
@@ -583,11 +589,47 @@ def rule_no_inplace_mutation(rep: Report, repo: Repo, modules=None):
                 n_calls += 1
                 st = _arg_fresh(caller, arg, env, an)
                 inst = f"{caller.mod}::{caller.q} passes `{norm(arg)[:50]}` to {fname}({pname}=...) which mutates it"
+                ab = base_name(arg)
+                if st is not True and ab is not None:
+                    org = caller.origins(ab) if ab not in caller.params else {ab}
+                    own = org and org <= set(caller.params) - caller.captured - {"self"}
+                    if own and (caller.mod, caller.func.name) not in propagated:
+                        # the caller hands its own parameter on: it mutates that parameter itself, and ITS call sites are what matters
+                        propagated.add((caller.mod, caller.func.name))
+                        extra_summaries.setdefault((caller.mod, caller.func.name), set()).update(
+                            (caller.params.index(o_), o_) for o_ in org)
+                        rep.ok(RULE, inst, f"the argument is the caller's own parameter `{sorted(org)[0]}`: {caller.q} is treated as mutating it "
+                                           "(its call sites are checked in turn)", repo.loc(caller.mod, call))
+                        continue
+                    if own:
+                        rep.ok(RULE, inst, "the caller's own parameter (see the caller's call sites)", repo.loc(caller.mod, call))
+                        continue
+                    # a closure that hands on a parameter of the function that made it (a factory): that function mutates its parameter
+                    encl = getattr(caller.func, "_parent", None)
+                    while encl is not None and not (isinstance(encl, ast.FunctionDef) and ab in [a_.arg for a_ in encl.args.args]):
+                        encl = getattr(encl, "_parent", None)
+                    if encl is not None and ab in caller.captured | (set() if ab in caller.locals else {ab}):
+                        idx_e = [a_.arg for a_ in encl.args.args].index(ab)
+                        if (caller.mod, encl.name, ab) not in propagated:
+                            propagated.add((caller.mod, encl.name, ab))
+                            extra_summaries.setdefault((caller.mod, encl.name), set()).add((idx_e, ab))
+                        rep.ok(RULE, inst, f"`{ab}` is a parameter of the enclosing function {encl.name}: {encl.name} is treated as mutating it "
+                                           "(its call sites are checked in turn)", repo.loc(caller.mod, call))
+                        continue
                 if st is True:
                     rep.ok(RULE, inst, "argument is a package-owned copy", repo.loc(caller.mod, call))
                 else:
                     rep.fail(RULE, f"{caller.mod}::{caller.q} passes `{norm(arg)[:50]}` to {fname} which mutates parameter `{pname}` in place",
                              f"the argument is not provably a private copy: {st}", repo.loc(caller.mod, call))
+
+    work = sorted(summaries.items())
+    rounds = 0
+    while work and rounds < 4:
+        rounds += 1
+        extra_summaries = {}
+        for (mod_, fname_), plist_ in work:
+            check_sites(mod_, fname_, plist_)
+        work = sorted(extra_summaries.items())
     rep.count("E4.param_mutation_call_sites", n_calls)
     # a function whose callers are outside the package must not write into its arguments at all: the slots of a scipy
     # LinearOperator (called by scipy with the user's operand, or with the operand of the other term of a composite) and the
@@ -853,6 +895,13 @@ def rule_value_preserving(rep: Report, repo: Repo):
                     (isinstance(node, ast.Call) and isinstance(node.func, ast.Attribute) and node.func.attr == "round"):
                 kind = "round"
             key = (mod, q, kind)
+            if isinstance(node, ast.Attribute) and node.attr in ("real", "imag") and f is not None:
+                # both parts of the same value are taken in the same function: a split (each part goes its own way and they are
+                # recombined; the recombination is E7.greens's obligation), not a projection that drops a part
+                other = "imag" if node.attr == "real" else "real"
+                if any(isinstance(x, ast.Attribute) and x.attr == other and norm(x.value) == norm(node.value) for x in ast.walk(f)):
+                    rep.ok(R, f"{mod}::{q} splits `{norm(node.value)[:40]}` into real and imaginary part", "both parts are used", repo.loc(mod, node))
+                    continue
             if key in LOSSY_EXEMPT:
                 rep.ok(R, f"{mod}::{q} {what} `{txt[:60]}` (exempt)", LOSSY_EXEMPT[key], repo.loc(mod, node))
             else:
